@@ -1,1 +1,94 @@
-"""(rules registered here)"""
+"""Layout rules (C01, C14): L-AGREE (producer layout accepted by the parser graph and vice versa), L-SPEC (parser/producer layouts equal
+the hand-written CIP spec layouts), T-SEGMENTS (EPATH segment table), T-NCP (network connection parameter bit-fields)."""
+import ast
+
+from .core import ( rule, Result, AnalysisError, dotted, call_name, is_call_to, names_in, attrs_in, walk_no_nested,
+                    norm_text, dotted_in, stmt_of, pmatch, pfind, txt )
+from .fold import try_fold, fold, NoFold
+from .grammar import grammar_of, Node, Decide, FILES
+from .layout import ( ParserLayout, ProducerLayout, Seq, producer_branches, branch_selected, best_match, seq_match, show_atom,
+                      resolve_struct_lits, atom_eq )
+from .rules_paths import class_consts_env, SERVICE_CLASSES
+from . import spec
+
+
+class L:
+    def __init__( self, line ):
+        self.lineno = line
+
+
+def show_seq( s ):
+    return ' '.join( show_atom( a ) for a in s.atoms ) or '(nothing)'
+
+
+RECOGNISED_LITS = ( 'status_in', 'struct', 'struct?', 'odd', 'present', 'absent' )
+
+
+def service_layouts( ctx ):
+    """-> list of dict( cls, number, name, parser seqs, producer seqs, producer fn, site ) for every registered service parser"""
+    def build():
+        g = grammar_of( ctx )
+        out = []
+        for rel, cname in SERVICE_CLASSES:
+            src = ctx.src( rel )
+            pfn = src.get( cname + '.produce' )
+            branches = producer_branches( ctx, g, src, pfn, cname )
+            env = class_consts_env( ctx, cname )
+            for r in g.registrations:
+                if r['cls'] != cname or r['number'] is True or not isinstance( r['number'], int ) or not isinstance( r['machine'], Node ):
+                    continue
+                pl = ParserLayout( g )
+                Q = resolve_struct_lits( pl.seqs( r['machine'], '' ))
+                sel = None
+                for test, body in branches:
+                    if test is None:
+                        continue
+                    if branch_selected( test, r['number'], env, short=r['short'] ):
+                        sel = ( test, body ); break
+                P, unknown = [], []
+                if sel is not None:
+                    pr = ProducerLayout( g, pfn, cname, 'data' )
+                    P = resolve_struct_lits( pr.block( sel[1], [ Seq() ], {}, {} ))
+                    unknown = pr.unknown
+                out.append( dict( cls=cname, number=r['number'], name=r['name'], Q=Q, P=P, sel=sel, pfn=pfn, src=src, site=r['site'],
+                                  unknown=unknown, truncated=pl.truncated ))
+        return out
+    return ctx.cached( 'service_layouts', build )
+
+
+@rule( 'L-AGREE', props=( 'C01', 'C14' ), floor=40 )
+def l_agree( ctx ):
+    """for every registered service: each layout the parser accepts is one the producer emits, and each layout the producer emits (under recognised guards) is one the parser accepts - same order, width, signedness, byte order, data path, pads, guards"""
+    res = Result( 'L-AGREE' )
+    for e in service_layouts( ctx ):
+        label = '%s 0x%02X %s' % ( e['cls'], e['number'], e['name'] )
+        psrc = ctx.src( FILES[e['site'][0]] )
+        if e['sel'] is None:
+            res.bad( psrc, L( e['site'][1] ), label, '%s.produce has no branch selecting this service: a parsed message cannot be re-produced' % e['cls'], func=e['cls'] + '.produce' )
+            continue
+        if e['unknown']:
+            raise AnalysisError( '%s: producer construct outside the modelled subset: %s' % ( label, e['unknown'][:3] ))
+        if e['truncated'] or not e['Q'] or not e['P']:
+            raise AnalysisError( '%s: layout extraction incomplete (parser %d / producer %d sequences)' % ( label, len( e['Q'] ), len( e['P'] )))
+        # producer -> parser: every layout variant the producer can emit for this service must be accepted by the parser registered for
+        # this service (or, for variants that belong to a sibling service sharing the dispatch branch, by that sibling's parser)
+        siblings = [ x for x in service_layouts( ctx ) if x['cls'] == e['cls'] and x['sel'] is not None and x['sel'][0] is e['sel'][0] ]
+        for p in e['P']:
+            here = any( seq_match( p.atoms, q.atoms )[0] for q in e['Q'] )
+            if here:
+                res.ok( e['src'], L( p.trace[0][0] if p.trace and isinstance( p.trace[0][0], int ) else e['pfn'].lineno ),
+                        '%s: producer layout [%s] is accepted by its parser' % ( label, show_seq( p )))
+                continue
+            elsewhere = [ x for x in siblings if x is not e and any( seq_match( p.atoms, q.atoms )[0] for q in x['Q'] ) ]
+            if elsewhere and any( k[0] in ( 'large', ) for k in p.lits ):
+                continue				# the variant of the sibling service (e.g. Large Forward Open); checked there
+            best = max( e['Q'], key=lambda q: ( seq_match( p.atoms, q.atoms )[1] or 0 ))
+            i = seq_match( p.atoms, best.atoms )[1]
+            pp = tuple( a for a in p.atoms if a[0] != 'G' ) if not ( any( a[0] == 'G' for a in p.atoms ) and any( a[0] == 'G' for a in best.atoms )) else p.atoms
+            pa = show_atom( pp[i] ) if i < len( pp ) else '(end of message)'
+            line = p.trace[min( i, len( p.trace ) - 1 )][0] if p.trace else e['pfn'].lineno
+            res.bad( e['src'], L( line if isinstance( line, int ) else e['pfn'].lineno ),
+                     '%s: producer field %d (%s) is not what the parser expects there' % ( label, i, pa ),
+                     'producer layout [%s] is not accepted; closest parser layout [%s]: produced bytes re-parse to different fields' % ( show_seq( p ), show_seq( best )),
+                     func=e['cls'] + '.produce' )
+    return res
